@@ -46,7 +46,11 @@ var fragments = []string{
 	"\\", "\\\\", "\\\"", "#", "//", "/*", "*/", "/**", "__halt_compiler", "(", ")", ";", "0x", "0b", "0", "1", ".", "e", "E+", "_1", "b\"", "B'", "\x00", "\x01", "\x7f", "\x80", "\xff", "=", "=>", "&", ",", ":", "?", "??", "!", "@", "+", "-", "*", "**", "/", "%", "<", ">", "<=>", "|", "^", "~",
 	"yield", " from ", "yield from", "(int)", "( int )", "(unset)", "function", "fn", "class", "new", "static", "namespace", "use", "as", "list", "array", "echo", "print", "if", "else", "elseif", "endif", "while", "for", "foreach", "switch", "case", "default", "try", "catch", "finally", "goto", "declare", "const", "trait", "interface", "extends", "implements", "instanceof", "insteadof", "abstract", "final", "public", "var", "global", "unset", "isset", "empty", "exit", "die", "include", "return", "break", "and", "or", "xor", "clone", "throw", "do", "callable", "__LINE__", "\xe4\xf6",
 	"$a->b", "$a[0]", "$a[b]", "$a[$b]", "$a[-1]", "${a}", "${a[0]}", "{$a}", "{$a->b}", "$$a", "$1", "$ ", "{ $",
+	" trait T extends X {} ", " trait T implements I, J {} ", " foreach ($a as &$k => $v) {} ", " foreach (f() as &$k => &$v) ; ", " as &$k => ", "\xef\xbb\xbf",
 }
+
+// SemanticErrors5: statements the PHP 5 grammar reports from its actions (compile-time errors of PHP).
+var SemanticErrors5 = []string{"trait T extends X {}", "trait T implements I {}", "trait T extends X implements I, J { function f() {} }", "foreach ($a as &$k => $v) {}", "foreach (f() as &$k => &$v) ;", "foreach ($a as &$k => $v): endforeach;"}
 
 // Hostile produces one hostile input (G3): prefix truncation, token soup, byte
 // mutation, splices, or random bytes, over the corpus and optional extra valid sources.
